@@ -119,17 +119,41 @@ def diff(exp, obs, path="", ignore=(), unordered=False):
                 if n in on:
                     out.extend(diff(en[n], on[n], here, ignore, unordered))
             continue
-        def _nm(ce, co):
-            if co.get("name") == co.get("id") and ce.get("id") != co.get("id"):
-                return ce.get("name")  # default-replaced object, reported once below
-            return co.get("name")
-        onames = [_nm(ce, co) for ce, co in zip(e, o)] + [c.get("name") for c in o[len(e):]]
-        if [c.get("name") for c in e] != onames:
-            out.append({"path": here or "/", "field": lst + ".names", "kind": exp["k"],
-                        "exp": [c.get("name") for c in e], "obs": [c.get("name") for c in o],
-                        "ctx": {}})
-        for ce, co in zip(e, o):
-            out.extend(diff(ce, co, here, ignore, unordered))
+        # ordered lists: align by name so that one lost child does not misalign its siblings
+        en = [c.get("name") for c in e]
+        on = [c.get("name") for c in o]
+        odict = {}
+        for c in o:
+            odict.setdefault(c.get("name"), c)
+        used = set()
+        unmatched_e = []
+        for ce in e:
+            co = odict.get(ce.get("name"))
+            if co is not None and id(co) not in used:
+                used.add(id(co))
+                out.extend(diff(ce, co, here, ignore, unordered))
+            else:
+                unmatched_e.append(ce)
+        unmatched_o = [c for c in o if id(c) not in used]
+        # a default-replaced object (lenient readers) pairs up with the unmatched expected child at
+        # the same index
+        for ce in list(unmatched_e):
+            idx = e.index(ce)
+            if idx < len(o) and o[idx] in unmatched_o and o[idx].get("name") == o[idx].get("id"):
+                out.extend(diff(ce, o[idx], here, ignore, unordered))
+                unmatched_e.remove(ce)
+                unmatched_o.remove(o[idx])
+                on[idx] = ce.get("name")
+        for ce in unmatched_e:
+            out.append({"path": here + "/" + str(ce.get("name")), "field": "child-missing",
+                        "kind": ce.get("k"), "exp": ce.get("values", ce.get("name")), "obs": None,
+                        "ctx": {"dtype": ce.get("dtype")} if ce.get("k") == "prop" else {}})
+        for co in unmatched_o:
+            out.append({"path": here + "/" + str(co.get("name")), "field": "child-extra",
+                        "kind": co.get("k"), "exp": None, "obs": co.get("name"), "ctx": {}})
+        if not unmatched_e and not unmatched_o and en != on:
+            out.append({"path": here or "/", "field": lst + ".order", "kind": exp["k"],
+                        "exp": en, "obs": on, "ctx": {}})
     return out
 
 
